@@ -471,13 +471,16 @@ def check_plus_identity(prog, rep):
                 grid = st.targets[0].id
     # the branch `if k in sites:` names the per-site factors
     br = [s for s in ast.walk(f) if isinstance(s, ast.If) and isinstance(s.test, ast.Compare) and
-          isinstance(s.test.ops[0], ast.In) and unparse(s.test.comparators[0]) == 'sites']
+          isinstance(s.test.ops[0], (ast.In, ast.NotIn)) and
+          unparse(s.test.comparators[0]) == 'sites']
     if len(blocks) != 4 or ident is None or grid is None or len(br) != 1:
         raise AnalysisError('MPO.plus_identity: blocks / identity / grid / site branch not found')
     br = br[0]
+    in_body, out_body = (br.body, br.orelse) if isinstance(br.test.ops[0], ast.In) else \
+        (br.orelse, br.body)
     inside, outside = {}, {}
     incr = None
-    for blk, dst in ((br.body, inside), (br.orelse, outside)):
+    for blk, dst in ((in_body, inside), (out_body, outside)):
         for st in blk:
             if isinstance(st, ast.Assign):
                 for t in st.targets:
@@ -616,7 +619,7 @@ def check_plus_identity(prog, rep):
         if not isinstance(op, (ast.Eq, ast.NotEq)):
             return None
         if unparse(yes) == 'beta' and isinstance(no, ast.Constant) and no.value == 1:
-            st = [s for s in br.body if isinstance(s, ast.Assign) and s.value is v][0]
+            st = [s for s in in_body if isinstance(s, ast.Assign) and s.value is v][0]
             try:
                 kp = eval_poly(ast.parse(k, mode='eval').body, {})
             except NotPoly:
